@@ -168,6 +168,8 @@ add('ProveState::is_parent_of', r'^total_difficulty\(parent\)$', TD_INV)
 add('CheckPoints::number_of_last_check_point', r'^overflow\(-\)\(count, 1_u64\)$', 'inner is never empty: created with one element, grown only by add_check_points, shrunk only by remove_first_n_check_points(index) with index < len (C07.r5)')
 CPI = 'check_point_interval is the non-zero constant CHECK_POINT_INTERVAL passed to Peers::new'
 add('CheckPoints::add_check_points', r'^rem0\(start_number\)$', CPI)
+add('CheckPoints::add_check_points', r'^div0\(Sub\(start_number, first_number\)\.0\)$', CPI)
+add('CheckPoints::add_check_points', r'^Index\(self\.inner, _\)$', '`inner[offset..]` with offset = (start - first) / interval under first <= start < next = first + interval * (len - 1): offset <= len - 2 (F70 fix)', ['cmp:Le(first_number, start_number)', 'cmp:Lt(start_number, next_number)'])
 add('CheckPoints::add_check_points', r'^overflow\(-\)\(self\.inner\.len\(\), 1_usize\)$', 'inner is never empty (C07.r5)')
 add('CheckPoints::add_check_points', r'^Index\(self\.inner, Sub\(self\.inner\.len\(\), 1_usize\)\.0\)$', 'len - 1 is a valid index of the non-empty inner')
 add('CheckPoints::add_check_points', r'^Index\(check_points, _\)$', '`check_points[1..]` after check_points.len() < 2 returned an error', ['cmp:Lt(check_points.len(), 2_usize)'])
